@@ -95,9 +95,10 @@ pub fn def(ctx: &Ctx) -> PropDef {
             })
             .boxed()
     }, check));
-    let long = t.pick(150_000usize, 6_000_000);
-    subs.push(PSub::boxed("long/rng", t.pick(12, 40), move || hc_seed().prop_map(move |seed| Case { seed, depth: long, core_route: false }).boxed(), check));
-    subs.push(PSub::boxed("long/core", t.pick(12, 40), move || hc_seed().prop_map(move |seed| Case { seed, depth: long, core_route: true }).boxed(), check));
+    // beyond 2^16 blocks = 2^20 words (counter-width boundaries)
+    let long = t.pick(1_200_000usize, 20_000_000);
+    subs.push(PSub::boxed("long/rng", t.pick(6, 24), move || hc_seed().prop_map(move |seed| Case { seed, depth: long, core_route: false }).boxed(), check));
+    subs.push(PSub::boxed("long/core", t.pick(6, 24), move || hc_seed().prop_map(move |seed| Case { seed, depth: long, core_route: true }).boxed(), check));
     PropDef {
         id: "C02",
         rule: "cases = 32-byte seed (uniform, sparse, dense, special words, single non-zero byte at every position, key-only / IV-only / distinct key and IV words, zero, crate test seeds) x depth {16; 64; 560 (P->Q); 1100 (table wrap); 2300; random; long runs} x route {Hc128Rng::next_u32, Hc128Core::generate}; every keystream word is compared with the array-form HC-128 of Wu's specification. Non-trivial = >=2 non-zero seed bytes, depth > 16, not a crate test seed; distinct by hash of (seed, depth, route).".into(),
